@@ -41,7 +41,7 @@ func (c08) Meta() fw.Meta {
 
 func (c08) Cases(tier string) int {
 	if tier == "thorough" {
-		return 6000
+		return 40000
 	}
 	return 520
 }
